@@ -70,7 +70,7 @@ func (w *World) trigger(class string) string {
 var c01Alpha = []*BatchSpec{
 	{Ops: ops("S:a")},
 	{Ops: ops("D:a")},
-	{Ops: ops("S:a", "S:b")},
+	{Ops: ops("S:b", "S:a")}, // inserted in descending key order (matters for DeferredSort)
 	{Ops: ops("S:a", "D:b")},
 	{Ops: ops("E:a", "D:")},
 	{Ops: ops("S:", "E:b")},
@@ -97,15 +97,18 @@ func baseConfigs(tier string, mergeOp bool) []Config {
 				}
 			}
 		}
+		cfgs = append(cfgs, Config{Backing: "map", MinMergePct: 100, NoLLInit: true, MergeOp: mergeOp},
+			Config{Backing: "map", MinMergePct: 0.01, NoLLInit: true, CachePersisted: true, MergeOp: mergeOp},
+			Config{Backing: "store", MinMergePct: 100, Concern: 0, DeferredSort: true, MaxPre: 3, MergeOp: mergeOp})
 		return cfgs
 	}
 	// quick: covering subset - every option value at least once, every pair of {backing, CachePersisted, concern}
 	return []Config{
 		{Backing: "none", MinMergePct: 0.01, MergeOp: mergeOp},
 		{Backing: "none", MinMergePct: 100, DeferredSort: true, MergeOp: mergeOp},
-		{Backing: "map", MinMergePct: 100, MergeOp: mergeOp},
+		{Backing: "map", MinMergePct: 100, NoLLInit: true, MergeOp: mergeOp},
 		{Backing: "map", MinMergePct: 0.01, CachePersisted: true, DeferredSort: true, MergeOp: mergeOp},
-		{Backing: "store", MinMergePct: 100, Concern: 0, CachePersisted: true, MergeOp: mergeOp},
+		{Backing: "store", MinMergePct: 100, Concern: 0, DeferredSort: true, MaxPre: 3, MergeOp: mergeOp},
 		{Backing: "store", MinMergePct: 0.01, Concern: 1, MergeOp: mergeOp},
 		{Backing: "store", MinMergePct: 100, Concern: 2, DeferredSort: true, MergeOp: mergeOp},
 		{Backing: "store", MinMergePct: 0.01, Concern: 2, CachePersisted: true, MergeOp: mergeOp},
@@ -116,7 +119,8 @@ func init() {
 	g1Specs["C01"] = func(tier string) *G1Spec {
 		sp := &G1Spec{Prop: "C01", Alpha: c01Alpha, Configs: baseConfigs(tier, false),
 			Steps: []string{"M", "MA", "Pb", "Pe", "R"}, Devs: []string{"m1", "p1"},
-			MaxB: 3, MaxD: 9, MaxK: 1, MaxR: 1, Deadline: tierDeadline(tier),
+			Roots: [][]string{{"B0", "M", "Pb", "Pe"}, {"B2", "M", "Pb", "Pe", "B0", "M", "Pb", "Pe", "R"}},
+			MaxB:  3, MaxD: 9, MaxK: 1, MaxR: 1, Deadline: tierDeadline(tier),
 			Note: "oracle: dump(Collection.Snapshot()) == reference model after every step"}
 		if tier == "thorough" {
 			sp.MaxB, sp.MaxD, sp.MaxK, sp.MaxR = 4, 13, 2, 2
